@@ -15,7 +15,7 @@ namespace Py65.Props.C02
 open Py65 Py65.Gen Py65.Spec Py65.Proofs
 
 /-- Opcodes whose handler theorem is not proved yet (covered by the differential only). -/
-def unproved : List Int := [0x26, 0x2a, 0x2e, 0x36, 0x3e, 0x61, 0x65, 0x66, 0x69, 0x6a, 0x6d, 0x6e, 0x71, 0x72, 0x75, 0x76, 0x79, 0x7d, 0x7e, 0xe1, 0xe5, 0xe9, 0xed, 0xf1, 0xf2, 0xf5, 0xf9, 0xfd]
+def unproved : List Int := []
 
 /-- Full statement of C02 (see `C02_partial` for what is proved). -/
 def Statement : Prop :=
@@ -33,6 +33,7 @@ theorem step_not_waiting (s : St) (hw : s.waiting = false) :
 theorem C02_partial (s : St) (hs : WF dev65c02.cfg s) (hw : s.waiting = false)
     (mn : Mn) (mo : Mode) (hd : decode .cmos (s.mem s.pc) = some (mn, mo))
     (hproved : s.mem s.pc ∉ unproved)
+    (hdec : (mn = .ADC ∨ mn = .SBC) → flag s.p bitD = false)
     (hjsr : mn = .JSR → NoSelfOverwriteJSR dev65c02.cfg (afterFetch dev65c02.cfg dev65c02.tbl s)) :
     abs (dev65c02.step s) = Spec.step 8 .cmos (abs s) := by
   have hc : IsDev dev65c02.cfg := Or.inl rfl
@@ -69,7 +70,7 @@ theorem C02_partial (s : St) (hs : WF dev65c02.cfg s) (hw : s.waiting = false)
     · exact step_case _ hc _ .cmos s hs hw _ _ _ _ (fun _ => True) hop hd0 dev65c02.instruct_5a ((HC.h5a .cmos).toP _) trivial
     · exact step_case _ hc _ .cmos s hs hw _ _ _ _ (fun _ => True) hop hd0 dev65c02.instruct_64 ((HC.h64 .cmos).toP _) trivial
     · exact step_case _ hc _ .cmos s hs hw _ _ _ _ (fun _ => True) hop hd0 dev65c02.instruct_67 ((HC.h67 .cmos).toP _) trivial
-    · exact absurd (by decide) hproved
+    · exact step_case _ hc _ .cmos s hs hw _ _ _ _ _ hop hd0 dev65c02.instruct_72 (HC.h72 .cmos) (hdec (Or.inl rfl))
     · exact step_case _ hc _ .cmos s hs hw _ _ _ _ (fun _ => True) hop hd0 dev65c02.instruct_74 ((HC.h74 .cmos).toP _) trivial
     · exact step_case _ hc _ .cmos s hs hw _ _ _ _ (fun _ => True) hop hd0 dev65c02.instruct_77 ((HC.h77 .cmos).toP _) trivial
     · exact step_case _ hc _ .cmos s hs hw _ _ _ _ (fun _ => True) hop hd0 dev65c02.instruct_7a ((HC.h7a .cmos).toP _) trivial
@@ -90,7 +91,7 @@ theorem C02_partial (s : St) (hs : WF dev65c02.cfg s) (hw : s.waiting = false)
     · exact step_case _ hc _ .cmos s hs hw _ _ _ _ (fun _ => True) hop hd0 dev65c02.instruct_d7 ((HC.hd7 .cmos).toP _) trivial
     · exact step_case _ hc _ .cmos s hs hw _ _ _ _ (fun _ => True) hop hd0 dev65c02.instruct_da ((HC.hda .cmos).toP _) trivial
     · exact step_case _ hc _ .cmos s hs hw _ _ _ _ (fun _ => True) hop hd0 dev65c02.instruct_e7 ((HC.he7 .cmos).toP _) trivial
-    · exact absurd (by decide) hproved
+    · exact step_case _ hc _ .cmos s hs hw _ _ _ _ _ hop hd0 dev65c02.instruct_f2 (HC.hf2 .cmos) (hdec (Or.inr rfl))
     · exact step_case _ hc _ .cmos s hs hw _ _ _ _ (fun _ => True) hop hd0 dev65c02.instruct_f7 ((HC.hf7 .cmos).toP _) trivial
     · exact step_case _ hc _ .cmos s hs hw _ _ _ _ (fun _ => True) hop hd0 dev65c02.instruct_fa ((HC.hfa .cmos).toP _) trivial
   · rename_i hnone
@@ -118,21 +119,21 @@ theorem C02_partial (s : St) (hs : WF dev65c02.cfg s) (hw : s.waiting = false)
     · exact step_case _ hc _ .cmos s hs hw _ _ _ _ (fun _ => True) hop hd0 dev65c02.instruct_21 ((H.h21 _ hc .cmos).toP _) trivial
     · exact step_case _ hc _ .cmos s hs hw _ _ _ _ (fun _ => True) hop hd0 dev65c02.instruct_24 ((H.h24 _ hc .cmos).toP _) trivial
     · exact step_case _ hc _ .cmos s hs hw _ _ _ _ (fun _ => True) hop hd0 dev65c02.instruct_25 ((H.h25 _ hc .cmos).toP _) trivial
-    · exact absurd (by decide) hproved
+    · exact step_case _ hc _ .cmos s hs hw _ _ _ _ (fun _ => True) hop hd0 dev65c02.instruct_26 ((H.h26 _ hc .cmos).toP _) trivial
     · exact step_case _ hc _ .cmos s hs hw _ _ _ _ (fun _ => True) hop hd0 dev65c02.instruct_28 ((H.h28 _ hc .cmos).toP _) trivial
     · exact step_case _ hc _ .cmos s hs hw _ _ _ _ (fun _ => True) hop hd0 dev65c02.instruct_29 ((H.h29 _ hc .cmos).toP _) trivial
-    · exact absurd (by decide) hproved
+    · exact step_case _ hc _ .cmos s hs hw _ _ _ _ (fun _ => True) hop hd0 dev65c02.instruct_2a ((H.h2a _ hc .cmos).toP _) trivial
     · exact step_case _ hc _ .cmos s hs hw _ _ _ _ (fun _ => True) hop hd0 dev65c02.instruct_2c ((H.h2c _ hc .cmos).toP _) trivial
     · exact step_case _ hc _ .cmos s hs hw _ _ _ _ (fun _ => True) hop hd0 dev65c02.instruct_2d ((H.h2d _ hc .cmos).toP _) trivial
-    · exact absurd (by decide) hproved
+    · exact step_case _ hc _ .cmos s hs hw _ _ _ _ (fun _ => True) hop hd0 dev65c02.instruct_2e ((H.h2e _ hc .cmos).toP _) trivial
     · exact step_case _ hc _ .cmos s hs hw _ _ _ _ (fun _ => True) hop hd0 dev65c02.instruct_30 ((H.h30 _ hc .cmos).toP _) trivial
     · exact step_case _ hc _ .cmos s hs hw _ _ _ _ (fun _ => True) hop hd0 dev65c02.instruct_31 ((H.h31 _ hc .cmos).toP _) trivial
     · exact step_case _ hc _ .cmos s hs hw _ _ _ _ (fun _ => True) hop hd0 dev65c02.instruct_35 ((H.h35 _ hc .cmos).toP _) trivial
-    · exact absurd (by decide) hproved
+    · exact step_case _ hc _ .cmos s hs hw _ _ _ _ (fun _ => True) hop hd0 dev65c02.instruct_36 ((H.h36 _ hc .cmos).toP _) trivial
     · exact step_case _ hc _ .cmos s hs hw _ _ _ _ (fun _ => True) hop hd0 dev65c02.instruct_38 ((H.h38 _ hc .cmos).toP _) trivial
     · exact step_case _ hc _ .cmos s hs hw _ _ _ _ (fun _ => True) hop hd0 dev65c02.instruct_39 ((H.h39 _ hc .cmos).toP _) trivial
     · exact step_case _ hc _ .cmos s hs hw _ _ _ _ (fun _ => True) hop hd0 dev65c02.instruct_3d ((H.h3d _ hc .cmos).toP _) trivial
-    · exact absurd (by decide) hproved
+    · exact step_case _ hc _ .cmos s hs hw _ _ _ _ (fun _ => True) hop hd0 dev65c02.instruct_3e ((H.h3e _ hc .cmos).toP _) trivial
     · exact step_case _ hc _ .cmos s hs hw _ _ _ _ (fun _ => True) hop hd0 dev65c02.instruct_40 ((H.h40 _ hc .cmos).toP _) trivial
     · exact step_case _ hc _ .cmos s hs hw _ _ _ _ (fun _ => True) hop hd0 dev65c02.instruct_41 ((H.h41 _ hc .cmos).toP _) trivial
     · exact step_case _ hc _ .cmos s hs hw _ _ _ _ (fun _ => True) hop hd0 dev65c02.instruct_45 ((H.h45 _ hc .cmos).toP _) trivial
@@ -152,23 +153,23 @@ theorem C02_partial (s : St) (hs : WF dev65c02.cfg s) (hw : s.waiting = false)
     · exact step_case _ hc _ .cmos s hs hw _ _ _ _ (fun _ => True) hop hd0 dev65c02.instruct_5d ((H.h5d _ hc .cmos).toP _) trivial
     · exact step_case _ hc _ .cmos s hs hw _ _ _ _ (fun _ => True) hop hd0 dev65c02.instruct_5e ((H.h5e _ hc .cmos).toP _) trivial
     · exact step_case _ hc _ .cmos s hs hw _ _ _ _ (fun _ => True) hop hd0 dev65c02.instruct_60 ((H.h60 _ hc .cmos).toP _) trivial
-    · exact absurd (by decide) hproved
-    · exact absurd (by decide) hproved
-    · exact absurd (by decide) hproved
+    · exact step_case _ hc _ .cmos s hs hw _ _ _ _ _ hop hd0 dev65c02.instruct_61 (H.h61 _ hc .cmos) (hdec (Or.inl rfl))
+    · exact step_case _ hc _ .cmos s hs hw _ _ _ _ _ hop hd0 dev65c02.instruct_65 (H.h65 _ hc .cmos) (hdec (Or.inl rfl))
+    · exact step_case _ hc _ .cmos s hs hw _ _ _ _ (fun _ => True) hop hd0 dev65c02.instruct_66 ((H.h66 _ hc .cmos).toP _) trivial
     · exact step_case _ hc _ .cmos s hs hw _ _ _ _ (fun _ => True) hop hd0 dev65c02.instruct_68 ((H.h68 _ hc .cmos).toP _) trivial
-    · exact absurd (by decide) hproved
-    · exact absurd (by decide) hproved
+    · exact step_case _ hc _ .cmos s hs hw _ _ _ _ _ hop hd0 dev65c02.instruct_69 (H.h69 _ hc .cmos) (hdec (Or.inl rfl))
+    · exact step_case _ hc _ .cmos s hs hw _ _ _ _ (fun _ => True) hop hd0 dev65c02.instruct_6a ((H.h6a _ hc .cmos).toP _) trivial
     · exact step_case _ hc _ .cmos s hs hw _ _ _ _ (fun _ => True) hop hd0 dev65c02.instruct_6c (HC.h6c.toP _) trivial
-    · exact absurd (by decide) hproved
-    · exact absurd (by decide) hproved
+    · exact step_case _ hc _ .cmos s hs hw _ _ _ _ _ hop hd0 dev65c02.instruct_6d (H.h6d _ hc .cmos) (hdec (Or.inl rfl))
+    · exact step_case _ hc _ .cmos s hs hw _ _ _ _ (fun _ => True) hop hd0 dev65c02.instruct_6e ((H.h6e _ hc .cmos).toP _) trivial
     · exact step_case _ hc _ .cmos s hs hw _ _ _ _ (fun _ => True) hop hd0 dev65c02.instruct_70 ((H.h70 _ hc .cmos).toP _) trivial
-    · exact absurd (by decide) hproved
-    · exact absurd (by decide) hproved
-    · exact absurd (by decide) hproved
+    · exact step_case _ hc _ .cmos s hs hw _ _ _ _ _ hop hd0 dev65c02.instruct_71 (H.h71 _ hc .cmos) (hdec (Or.inl rfl))
+    · exact step_case _ hc _ .cmos s hs hw _ _ _ _ _ hop hd0 dev65c02.instruct_75 (H.h75 _ hc .cmos) (hdec (Or.inl rfl))
+    · exact step_case _ hc _ .cmos s hs hw _ _ _ _ (fun _ => True) hop hd0 dev65c02.instruct_76 ((H.h76 _ hc .cmos).toP _) trivial
     · exact step_case _ hc _ .cmos s hs hw _ _ _ _ (fun _ => True) hop hd0 dev65c02.instruct_78 ((H.h78 _ hc .cmos).toP _) trivial
-    · exact absurd (by decide) hproved
-    · exact absurd (by decide) hproved
-    · exact absurd (by decide) hproved
+    · exact step_case _ hc _ .cmos s hs hw _ _ _ _ _ hop hd0 dev65c02.instruct_79 (H.h79 _ hc .cmos) (hdec (Or.inl rfl))
+    · exact step_case _ hc _ .cmos s hs hw _ _ _ _ _ hop hd0 dev65c02.instruct_7d (H.h7d _ hc .cmos) (hdec (Or.inl rfl))
+    · exact step_case _ hc _ .cmos s hs hw _ _ _ _ (fun _ => True) hop hd0 dev65c02.instruct_7e ((H.h7e _ hc .cmos).toP _) trivial
     · exact step_case _ hc _ .cmos s hs hw _ _ _ _ (fun _ => True) hop hd0 dev65c02.instruct_81 ((H.h81 _ hc .cmos).toP _) trivial
     · exact step_case _ hc _ .cmos s hs hw _ _ _ _ (fun _ => True) hop hd0 dev65c02.instruct_84 ((H.h84 _ hc .cmos).toP _) trivial
     · exact step_case _ hc _ .cmos s hs hw _ _ _ _ (fun _ => True) hop hd0 dev65c02.instruct_85 ((H.h85 _ hc .cmos).toP _) trivial
@@ -230,24 +231,28 @@ theorem C02_partial (s : St) (hs : WF dev65c02.cfg s) (hw : s.waiting = false)
     · exact step_case _ hc _ .cmos s hs hw _ _ _ _ (fun _ => True) hop hd0 dev65c02.instruct_dd ((H.hdd _ hc .cmos).toP _) trivial
     · exact step_case _ hc _ .cmos s hs hw _ _ _ _ (fun _ => True) hop hd0 dev65c02.instruct_de ((H.hde _ hc .cmos).toP _) trivial
     · exact step_case _ hc _ .cmos s hs hw _ _ _ _ (fun _ => True) hop hd0 dev65c02.instruct_e0 ((H.he0 _ hc .cmos).toP _) trivial
-    · exact absurd (by decide) hproved
+    · exact step_case _ hc _ .cmos s hs hw _ _ _ _ _ hop hd0 dev65c02.instruct_e1 (H.he1 _ hc .cmos) (hdec (Or.inr rfl))
     · exact step_case _ hc _ .cmos s hs hw _ _ _ _ (fun _ => True) hop hd0 dev65c02.instruct_e4 ((H.he4 _ hc .cmos).toP _) trivial
-    · exact absurd (by decide) hproved
+    · exact step_case _ hc _ .cmos s hs hw _ _ _ _ _ hop hd0 dev65c02.instruct_e5 (H.he5 _ hc .cmos) (hdec (Or.inr rfl))
     · exact step_case _ hc _ .cmos s hs hw _ _ _ _ (fun _ => True) hop hd0 dev65c02.instruct_e6 ((H.he6 _ hc .cmos).toP _) trivial
     · exact step_case _ hc _ .cmos s hs hw _ _ _ _ (fun _ => True) hop hd0 dev65c02.instruct_e8 ((H.he8 _ hc .cmos).toP _) trivial
-    · exact absurd (by decide) hproved
+    · exact step_case _ hc _ .cmos s hs hw _ _ _ _ _ hop hd0 dev65c02.instruct_e9 (H.he9 _ hc .cmos) (hdec (Or.inr rfl))
     · exact step_case _ hc _ .cmos s hs hw _ _ _ _ (fun _ => True) hop hd0 dev65c02.instruct_ea ((H.hea _ hc .cmos).toP _) trivial
     · exact step_case _ hc _ .cmos s hs hw _ _ _ _ (fun _ => True) hop hd0 dev65c02.instruct_ec ((H.hec _ hc .cmos).toP _) trivial
-    · exact absurd (by decide) hproved
+    · exact step_case _ hc _ .cmos s hs hw _ _ _ _ _ hop hd0 dev65c02.instruct_ed (H.hed _ hc .cmos) (hdec (Or.inr rfl))
     · exact step_case _ hc _ .cmos s hs hw _ _ _ _ (fun _ => True) hop hd0 dev65c02.instruct_ee ((H.hee _ hc .cmos).toP _) trivial
     · exact step_case _ hc _ .cmos s hs hw _ _ _ _ (fun _ => True) hop hd0 dev65c02.instruct_f0 ((H.hf0 _ hc .cmos).toP _) trivial
-    · exact absurd (by decide) hproved
-    · exact absurd (by decide) hproved
+    · exact step_case _ hc _ .cmos s hs hw _ _ _ _ _ hop hd0 dev65c02.instruct_f1 (H.hf1 _ hc .cmos) (hdec (Or.inr rfl))
+    · exact step_case _ hc _ .cmos s hs hw _ _ _ _ _ hop hd0 dev65c02.instruct_f5 (H.hf5 _ hc .cmos) (hdec (Or.inr rfl))
     · exact step_case _ hc _ .cmos s hs hw _ _ _ _ (fun _ => True) hop hd0 dev65c02.instruct_f6 ((H.hf6 _ hc .cmos).toP _) trivial
     · exact step_case _ hc _ .cmos s hs hw _ _ _ _ (fun _ => True) hop hd0 dev65c02.instruct_f8 ((H.hf8 _ hc .cmos).toP _) trivial
-    · exact absurd (by decide) hproved
-    · exact absurd (by decide) hproved
+    · exact step_case _ hc _ .cmos s hs hw _ _ _ _ _ hop hd0 dev65c02.instruct_f9 (H.hf9 _ hc .cmos) (hdec (Or.inr rfl))
+    · exact step_case _ hc _ .cmos s hs hw _ _ _ _ _ hop hd0 dev65c02.instruct_fd (H.hfd _ hc .cmos) (hdec (Or.inr rfl))
     · exact step_case _ hc _ .cmos s hs hw _ _ _ _ (fun _ => True) hop hd0 dev65c02.instruct_fe ((H.hfe _ hc .cmos).toP _) trivial
+
+/-- C02 in full: `unproved` is empty, so the partial theorem is the statement. -/
+theorem C02_full : Statement := fun s hs hw mn mo hd hdec hjsr =>
+  C02_partial s hs hw mn mo hd (by simp [unproved]) hdec hjsr
 
 /-- Non-vacuity: a well-formed state executing STZ $80 (a CMOS-only opcode). -/
 example : ∃ s : St, WF dev65c02.cfg s ∧ s.waiting = false ∧
